@@ -223,7 +223,9 @@ def gen_flat(ty, expr, c, env=None):
     elif k == 'bool': c.emit('l.push(%s as u64);' % expr)
     elif k == 'unit': pass
     elif k == 'compact': c.emit('l.push(%s.0 as u64);' % expr)
-    elif k == 'nonzero': c.emit('l.push(%s.get() as u64);' % expr)
+    elif k == 'nonzero':
+        if INTS[a[0]] == 16: c.emit('l.push(%s.get() as u128 as u64); l.push(((%s.get() as u128) >> 64) as u64);' % (expr, expr))
+        else: c.emit('l.push(%s.get() as u%d as u64);' % (expr, INTS[a[0]] * 8))
     elif k == 'opt':
         v = c.fresh(); c.emit('match &%s { None => l.push(0), Some(%s) => { l.push(1);' % (expr, v)); gen_flat(a[0], '(*%s)' % v, c, env); c.emit('} }')
     elif k == 'result':
@@ -238,6 +240,12 @@ def gen_flat(ty, expr, c, env=None):
         c.emit('l.push(%s.len() as u64);' % expr)
         for i in range(2):
             c.emit('if %s.len() > %d {' % (expr, i)); gen_flat(a[0], '%s[%d]' % (expr, i), c, env); c.emit('}')
+    elif k in ('btreeset', 'binaryheap'):
+        c.emit('l.push(%s.len() as u64);' % expr)
+        v = c.fresh(); c.emit('for %s in %s.iter().take(2) {' % (v, expr)); gen_flat(a[0], '(*%s)' % v, c, env); c.emit('}')
+    elif k == 'btreemap':
+        c.emit('l.push(%s.len() as u64);' % expr)
+        kk, vv = c.fresh(), c.fresh(); c.emit('for (%s, %s) in %s.iter().take(2) {' % (kk, vv, expr)); gen_flat(a[0], '(*%s)' % kk, c, env); gen_flat(a[1], '(*%s)' % vv, c, env); c.emit('}')
     elif k == 'string':
         c.emit('l.push(%s.len() as u64);' % expr)
         for i in range(2): c.emit('if %s.len() > %d { l.push(%s.as_bytes()[%d] as u64); }' % (expr, i, expr, i))
@@ -289,6 +297,9 @@ def gen_sample(ty, env=None):
     if k == 'vec': return '{ let n = (g.int() %% 3) as usize; let mut v = Vec::new(); for _ in 0..n { v.push(%s); } v }' % gen_sample(a[0], env)
     if k == 'vecdeque': return '{ let n = (g.int() %% 3) as usize; let mut v = VecDeque::new(); for _ in 0..n { v.push_back(%s); } v }' % gen_sample(a[0], env)
     if k == 'string': return '{ let n = (g.int() % 3) as usize; let mut v = String::new(); for _ in 0..n { v.push((b\'a\' + (g.int() % 26) as u8) as char); } v }'
+    if k == 'btreeset': return '{ let mut v = BTreeSet::new(); for _ in 0..(g.int() %% 3) { v.insert(%s); } v }' % gen_sample(a[0], env)
+    if k == 'binaryheap': return '{ let mut v = BinaryHeap::new(); if g.int() & 1 == 1 { v.push(%s); } v }' % gen_sample(a[0], env)
+    if k == 'btreemap': return '{ let mut v = BTreeMap::new(); for _ in 0..(g.int() %% 3) { v.insert(%s, %s); } v }' % (gen_sample(a[0], env), gen_sample(a[1], env))
     if k == 'range': return '(%s..%s)' % (gen_sample(a[0], env), gen_sample(a[0], env))
     if k == 'rangeinc': return '(%s..=%s)' % (gen_sample(a[0], env), gen_sample(a[0], env))
     if k == 'duration': return 'core::time::Duration::new(g.int(), (g.int() % 1_000_000_000) as u32)'
@@ -510,13 +521,14 @@ def emit_harnesses(tag, roots, dump, ctor=None, nleaves=40, nbytes=96):
         c3 = Code()
         if has_skipped_variant(r): gen_skip_assume(r, 'v', c3)
         mk = ctor[i] if ctor and ctor[i] else 'let v: %s = kani::any();' % r.rust()
+        if mk != 'NOKANI': names.append(name.lower())
+        if mk == 'NOKANI': mk = 'let v: %s = unimplemented!();' % r.rust()
         out += '#[cfg(kani)]\n#[kani::proof]\n#[kani::unwind(%d)]\nfn %s() {\n    %s\n    %s\n    let mut out = FixedOut::<%d>::new();\n    v.encode_to(&mut out);\n    assert!(out.n <= %d);\n' % (nbytes + 4, name.lower(), mk, '\n    '.join(c3.lines), nbytes, nbytes)
         out += '    let mut r = Rd { b: &out.buf, n: out.n, p: 0, ok: true };\n    let mut got = Leaves::new();\n    dec_%s(&mut r, &mut got);\n    let mut want = Leaves::new();\n    flat_%s(&v, &mut want);\n' % (name, name)
         out += '    assert!(r.ok);\n    assert!(r.p == out.n);\n    got.same(&want);\n    kani::cover!(true);\n    core::mem::forget(v);\n}\n\n'
         natives.append(name)
         out += '#[cfg(not(kani))]\npub fn native_%s(g: &mut Gen) -> bool {\n    let v: %s = %s;\n    let bytes = v.encode();\n    let mut r = Rd { b: &bytes, n: bytes.len(), p: 0, ok: true };\n' % (name, r.rust(), gen_sample(r))
         out += '    let mut got = Leaves::new();\n    dec_%s(&mut r, &mut got);\n    let mut want = Leaves::new();\n    flat_%s(&v, &mut want);\n    r.ok && r.p == bytes.len() && got.n == want.n && got.n <= NL && got.v[..got.n] == want.v[..want.n]\n}\n\n' % (name, name)
-        names.append(name.lower())
     out += '#[cfg(not(kani))]\npub fn native_all(rounds: usize, seed: u64) -> Vec<(&\'static str, usize)> {\n    let mut out = vec![];\n'
     for nm in natives:
         out += '    { let mut g = Gen::new(seed); let mut bad = 0; for _ in 0..rounds { if !native_%s(&mut g) { bad += 1; } } out.push(("%s", bad)); }\n' % (nm, nm.lower())
@@ -535,6 +547,72 @@ def build_c03(seed, count):
     return src, roots
 
 
+def build_c04(thorough, seed=0):
+    """built-in type expressions: (roots, constructors) ; constructor None = kani::any()"""
+    I = lambda n: Ty('int', n)
+    B = Ty('bool')
+    roots, ctors = [], []
+    def add(t, ctor=None): roots.append(t); ctors.append(ctor)
+    def anyv(t): return 'let v: %s = kani::any();' % t.rust()
+    for n in ['u8', 'u16', 'u32', 'u64', 'u128', 'i8', 'i16', 'i32', 'i64', 'i128']: add(I(n))
+    add(B); add(Ty('unit'), 'let v: () = ();')
+    add(Ty('array', I('u8'), 3)); add(Ty('array', I('u16'), 2)); add(Ty('array', Ty('tuple', [I('u8'), B]), 2))
+    def tup(ts): add(Ty('tuple', ts), 'let v: %s = (%s);' % (Ty('tuple', ts).rust(), ''.join('kani::any(), ' for _ in ts)))
+    widths = ['u8', 'u16', 'u32', 'u8', 'u64', 'u16']
+    for ar in ([1, 2, 3, 4, 6, 9, 12] + ([15, 18] if thorough else [18])): tup([I(widths[i % 6]) for i in range(ar)])
+    tup([I('u8'), Ty('tuple', [B, I('i16')]), Ty('opt', I('u32'))])
+    add(Ty('opt', I('u32'))); add(Ty('opt', Ty('opt', I('u8')))); add(Ty('result', I('u8'), I('u16'))); add(Ty('result', Ty('unit'), I('u32')), 'let v: Result<(), u32> = if kani::any() { Ok(()) } else { Err(kani::any()) };')
+    add(Ty('boxed', I('u16'))); add(Ty('rc', I('u16')), 'let v: Rc<u16> = Rc::new(kani::any());'); add(Ty('arc', I('u32')), 'let v: Arc<u32> = Arc::new(kani::any());')
+    add(Ty('cow', I('u16')), "let v: Cow<'static, u16> = Cow::Owned(kani::any());")
+    def vec(t, kind='vec'):
+        ty = Ty(kind, t)
+        if kind == 'vec': add(ty, 'let n: usize = kani::any(); kani::assume(n <= 2); let a: [%s; 2] = kani::any(); let v: %s = a[..n].to_vec();' % (t.rust(), ty.rust()))
+        else: add(ty, 'let n: usize = kani::any(); kani::assume(n <= 2); let a: [%s; 2] = kani::any(); let mut v: %s = VecDeque::new(); let mut i = 0; while i < n { v.push_back(a[i]); i += 1; }' % (t.rust(), ty.rust()))
+    vec(I('u8')); vec(I('u16')); vec(I('u8'), 'vecdeque')
+    if thorough: vec(Ty('tuple', [I('u8'), B]))
+    add(Ty('string'), 'let k: u8 = kani::any(); let v: String = if k == 0 { String::new() } else if k == 1 { String::from("a") } else { String::from("Zq") };')
+    add(Ty('btreeset', I('u8')), 'NOKANI')          # B-tree iteration is out of CBMC's reach (timeout with one element): native sampling + static shape only
+    add(Ty('btreemap', I('u8'), I('u16')), 'NOKANI')
+    add(Ty('binaryheap', I('u16')), 'let mut v: BinaryHeap<u16> = BinaryHeap::new(); if kani::any() { v.push(kani::any()); }')
+    for n in ['u8', 'u16', 'u32', 'u64']: add(Ty('compact', n), 'let v: Compact<%s> = Compact(kani::any());' % n)
+    add(Ty('range', I('u8')), 'let v: core::ops::Range<u8> = kani::any()..kani::any();'); add(Ty('rangeinc', I('u16')), 'let v: core::ops::RangeInclusive<u16> = kani::any()..=kani::any();')
+    for n in ['u8', 'u16', 'u32', 'u64', 'i8', 'i32', 'i64'] + (['i16', 'u128', 'i128'] if thorough else []): add(Ty('nonzero', n))
+    add(Ty('duration'), 'let nanos: u32 = kani::any(); kani::assume(nanos < 1_000_000_000); let v = core::time::Duration::new(kani::any(), nanos);')
+    add(Ty('phantom', I('u8')), 'let v: PhantomData<u8> = PhantomData;')
+    # nesting, depth 2 (+ seeded depth 3 in the thorough tier)
+    add(Ty('opt', Ty('array', I('u16'), 2))); add(Ty('array', Ty('opt', B), 2)); add(Ty('opt', Ty('boxed', I('u32')))); add(Ty('boxed', Ty('tuple', [I('u8'), I('u16')])))
+    add(Ty('result', Ty('opt', I('u8')), Ty('tuple', [I('u8'), I('u8')])))
+    if thorough: add(Ty('vec', Ty('opt', I('u8'))), 'let n: usize = kani::any(); kani::assume(n <= 2); let a: [Option<u8>; 2] = kani::any(); let v: Vec<Option<u8>> = a[..n].to_vec();')
+    add(Ty('opt', Ty('vec', I('u8'))), 'let n: usize = kani::any(); kani::assume(n <= 2); let a: [u8; 2] = kani::any(); let v: Option<Vec<u8>> = if kani::any() { Some(a[..n].to_vec()) } else { None };')
+    add(Ty('tuple', [Ty('compact', 'u32'), Ty('range', I('u8'))]), 'let v: (Compact<u32>, core::ops::Range<u8>) = (Compact(kani::any()), kani::any()..kani::any());')
+    if thorough:
+        rng = random.Random(seed)
+        def rnd(d):
+            x = rng.random()
+            if d == 0 or x < 0.3: return I(rng.choice(['u8', 'u16', 'u32', 'i8', 'u64'])) if rng.random() < 0.8 else B
+            if x < 0.5: return Ty('opt', rnd(d - 1))
+            if x < 0.65: return Ty('tuple', [rnd(d - 1) for _ in range(rng.randint(1, 3))])
+            if x < 0.78: return Ty('array', rnd(d - 1), rng.randint(1, 2))
+            if x < 0.9: return Ty('result', rnd(d - 1), rnd(d - 1))
+            return Ty('boxed', rnd(d - 1))
+        for _ in range(40): add(rnd(3))
+    return roots, ctors
+
+
+SHAPE_ONLY_C04 = [('char', {'primitive': 1}), ('(u8, u8, u8, u8, u8, u8, u8, u8, u8, u8, u8, u8, u8, u8, u8, u8, u8, u8, u8)', {'tuple': 19}),
+                  ('(u8, u8, u8, u8, u8, u8, u8, u8, u8, u8, u8, u8, u8, u8, u8, u8, u8, u8, u8, u8)', {'tuple': 20}), ('str', {'primitive': 2}), ('[u8]', {'sequence': None}), ('&\'static [u16]', {'sequence': None}),
+                  ('bitvec::vec::BitVec<u8, bitvec::order::Lsb0>', {'bitsequence': None}), ('bitvec::vec::BitVec<u16, bitvec::order::Msb0>', {'bitsequence': None})]
+
+
+def emit_corpus_c04(roots):
+    s = HEADER + '\npub fn roots() -> Vec<(&\'static str, scale_info::MetaType)> {\n    vec![\n'
+    for i, r in enumerate(roots): s += '        ("c04_R%d", scale_info::meta_type::<%s>()),\n' % (i, r.rust())
+    s += '    ]\n}\n#[cfg(not(kani))]\npub fn shape_roots() -> Vec<(&\'static str, scale_info::MetaType)> {\n    vec![\n'
+    for i, (t, _) in enumerate(SHAPE_ONLY_C04): s += '        ("c04_S%d", scale_info::meta_type::<%s>()),\n' % (i, t)
+    s += '    ]\n}\n'
+    return s
+
+
 if __name__ == '__main__':
     mode = sys.argv[1]
     here = os.path.dirname(os.path.abspath(__file__))
@@ -543,6 +621,23 @@ if __name__ == '__main__':
         src, roots = build_c03(seed, count)
         open(os.path.join(here, 'src', 'corpus_c03.rs'), 'w').write(emit_corpus('c03', src, roots))
         print(len(roots))
+    elif mode == 'c04-stage0':
+        roots, ctors = build_c04(int(sys.argv[3]) > 100, int(sys.argv[2]))
+        open(os.path.join(here, 'src', 'corpus_c04.rs'), 'w').write(emit_corpus_c04(roots))
+        print(len(roots))
+    elif mode == 'c04-stage2':
+        roots, ctors = build_c04(int(sys.argv[3]) > 100, int(sys.argv[2]))
+        dump = json.load(open(sys.argv[4]))
+        out, names, problems = emit_harnesses('c04', roots, dump, ctor=ctors)
+        # types without a codec encoding (and unsized ones): documented shape only
+        for i, (t, shape) in enumerate(SHAPE_ONLY_C04):
+            d = dump.get('c04_S%d' % i)
+            if d is None: problems['c04_S%d' % i] = {'type': t, 'problems': ['not dumped']}; continue
+            df = d['types'][d['root']]['def']; k = list(shape)[0]
+            ok = k in df and (shape[k] is None or (df[k] == shape[k] if k == 'primitive' else len(df[k]) == shape[k]))
+            if not ok: problems['c04_S%d' % i] = {'type': t, 'problems': ['documented shape %s, described as %s' % (shape, json.dumps(df)[:120])]}
+        open(os.path.join(here, 'src', 'c04_gen.rs'), 'w').write(out)
+        print(json.dumps({'harnesses': names, 'problems': problems, 'types': [r.rust() for r in roots], 'shape_only': [t for t, _ in SHAPE_ONLY_C04]}))
     elif mode == 'c03-stage2':
         seed, count, dumpfile = int(sys.argv[2]), int(sys.argv[3]), sys.argv[4]
         src, roots = build_c03(seed, count)
